@@ -585,7 +585,7 @@ def _decl(draw, spec, name, depth):
     if k < 2 and depth < 3:
         d['type'] = draw(_eo(spec, depth + 1))
     elif k < 4:
-        if sc_named and draw(st.booleans()):
+        if sc_named and draw(st.integers(0, 3)) > 0:
             d['type'] = draw(st.sampled_from(sc_named))
         else:
             d['type'] = ['sc', draw(_simple_typeref(spec)), draw(_attrs(spec))]
@@ -626,16 +626,37 @@ def schema_spec(draw):
     for i in range(nt):
         k = draw(st.integers(0, 9))
         sc_named = [t['name'] for t in spec['types'] if t['def'][0] in ('sc', 'scext')]
-        if k < 7:
+        if k < 6:
             d = draw(_simple_def(spec))
-        elif k == 7 and sc_named:
+        elif k < 8 and sc_named:
             base = draw(st.sampled_from(sc_named))
             taken = [a['name'] for a in resolve(spec, base)['attrs']]
             d = ['scext', base, draw(_attrs(spec, taken=taken))]
         else:
             d = ['sc', draw(_simple_typeref(spec, anon_ok=False)), draw(_attrs(spec))]
         spec['types'].append({'name': f'T{i}', 'def': d})
+    # derivation families that make xsi:type substitution possible (a declared named type with a named derived type)
+    forced = None
+    fam = draw(st.integers(0, 5))
+    n = len(spec['types'])
+    if fam == 0:
+        base = draw(_simple_typeref(spec, anon_ok=False))
+        a1 = draw(_attrs(spec))
+        spec['types'].append({'name': f'T{n}', 'def': ['sc', base, a1]})
+        a2 = draw(_attrs(spec, taken=[a['name'] for a in a1]))
+        spec['types'].append({'name': f'T{n + 1}', 'def': ['scext', f'T{n}', a2]})
+        forced = f'T{n}'
+    elif fam == 1:
+        base = draw(_builtin_ref(spec['xsd']))
+        f1 = draw(_facet_for(spec, resolve(spec, base)))
+        spec['types'].append({'name': f'T{n}', 'def': ['restriction', base, f1]})
+        f2 = draw(_facet_for(spec, resolve(spec, f'T{n}')))
+        spec['types'].append({'name': f'T{n + 1}', 'def': ['restriction', f'T{n}', f2]})
+        forced = f'T{n}'
     eo = draw(_eo(spec, 1))
+    if forced is not None:
+        k = eo[1][draw(st.integers(0, len(eo[1]) - 1))]
+        k.update({'type': forced, 'nillable': draw(st.integers(0, 5)) == 0, 'default': None, 'fixed': None})
     spec['root'] = {'name': 'root', 'kids': eo[1], 'attrs': eo[2]}
     return spec
 
@@ -846,7 +867,7 @@ def _node(draw, spec, decl, p):
         if dres['variety'] == 'atomic' and dres['builtin'] == 'string':
             # keep whitespace handling of xs:string declarations (value predicates compare strings)
             cands = [c for c in cands if resolve(spec, c)['builtin'] == 'string']
-    if cands and draw(st.integers(0, 4)) == 0:
+    if cands and draw(st.integers(0, 4 if t.startswith('xs:') else 2)) == 0:
         node['xsi'] = t = cands[draw(st.integers(0, len(cands) - 1))]
     res = resolve(spec, t)
     if res['variety'] in ('sc', 'eo'):
